@@ -146,14 +146,17 @@ pub struct TestFile {
     pub full: RecordBatch,
     /// metadata with the page index when the file has one
     pub meta: Arc<ParquetMetaData>,
+    /// metadata loaded without the page index
+    pub meta_plain: Arc<ParquetMetaData>,
     pub rg_rows: Vec<usize>,
     pub has_offset_index: bool,
 }
 
 pub fn random_layout(rng: &mut Rng, max_rows: usize) -> Layout {
-    let n = match rng.below(10) {
-        0 => 1 + rng.below(3),
-        1 => max_rows,
+    let n = match rng.below(30) {
+        29 => 0,
+        0 | 10 | 20 => 1 + rng.below(3),
+        1 | 11 | 21 => max_rows,
         _ => 4 + rng.below(max_rows.saturating_sub(3).max(1)),
     };
     let rg_rows = *rng.pick(&[n.max(1), n.max(1), 64, 33, 20, 10, 7, 5, 3]);
@@ -234,9 +237,10 @@ pub fn build_file(layout: &Layout) -> TestFile {
     }
     let meta = ArrowReaderMetadata::load(&bytes, ArrowReaderOptions::new().with_page_index_policy(PageIndexPolicy::Optional)).unwrap();
     let meta = meta.metadata().clone();
+    let meta_plain = ArrowReaderMetadata::load(&bytes, ArrowReaderOptions::new()).unwrap().metadata().clone();
     let rg_rows: Vec<usize> = meta.row_groups().iter().map(|r| r.num_rows() as usize).collect();
     let has_offset_index = meta.page_index().is_some_and(|pi| pi.page_locations(0, 0).is_some());
-    TestFile { bytes, layout: layout.clone(), n: layout.n, full, meta, rg_rows, has_offset_index }
+    TestFile { bytes, layout: layout.clone(), n: layout.n, full, meta, meta_plain, rg_rows, has_offset_index }
 }
 
 fn concat(batches: &[RecordBatch]) -> RecordBatch {
@@ -359,7 +363,13 @@ pub fn eval_pred(spec: &PredSpec, batch: &RecordBatch) -> BooleanArray {
 }
 
 pub fn random_pred(rng: &mut Rng, n: usize) -> PredSpec {
-    let kind = rng.below(PRED_KINDS as usize) as u8;
+    // constant-false / all-null predicates are rare: they empty the result
+    let kind = match rng.below(40) {
+        0 => 9,
+        1 => 12,
+        x => (x % 12) as u8,
+    };
+    let kind = if kind == 9 && rng.chance(80) { 0 } else { kind };
     let n = n.max(1) as i64;
     let (p1, p2) = match kind {
         0 => {
@@ -367,11 +377,11 @@ pub fn random_pred(rng: &mut Rng, n: usize) -> PredSpec {
             (k, rng.below(k as usize) as i64)
         }
         1 => {
-            let lo = rng.range(0, n);
-            (lo, lo + rng.range(0, n))
+            let lo = rng.range(0, n / 2);
+            (lo, lo + rng.range(n / 4, n))
         }
-        2 => (rng.range(0, 3 * n + 2), 0),
-        3 => (rng.range(0, n + 1), 0),
+        2 => (rng.range(0, 2 * n), 0),
+        3 => (rng.range(n / 3, n + 1), 0),
         5 => (rng.range(0, 3), 0),
         11 => (rng.range(0, 5), 0),
         _ => (0, 0),
@@ -405,6 +415,8 @@ pub struct ScanCfg {
     /// None = not set; Some(0) Selectors, Some(1) Mask, Some(t >= 2) Auto{threshold: t - 2}
     pub policy: Option<usize>,
     pub page_index: bool,
+    /// with_max_predicate_cache_size (async / push front-ends only)
+    pub cache: Option<usize>,
 }
 
 impl ScanCfg {
@@ -417,7 +429,12 @@ impl ScanCfg {
 }
 
 fn random_bits(rng: &mut Rng, n: usize, f: &TestFile) -> Vec<bool> {
-    let style = rng.below(9);
+    let style = match rng.below(20) {
+        0 => 1,
+        1 => 2,
+        x => 3 + x % 6,
+    };
+    let style = if style == 3 && rng.chance(50) { 0 } else { style };
     let mut run = rng.chance(50);
     let page = f.layout.page_rows.max(1);
     (0..n)
@@ -529,7 +546,7 @@ pub fn random_cfg(rng: &mut Rng, f: &TestFile) -> ScanCfg {
         }
         Some(v)
     };
-    let mut cfg = ScanCfg { proj, proj_style, rgs, sel: None, preds: vec![], offset: None, limit: None, bs: 1, policy: None, page_index: false };
+    let mut cfg = ScanCfg { proj, proj_style, rgs, sel: None, preds: vec![], offset: None, limit: None, bs: 1, policy: None, page_index: false, cache: None };
     let rows = cfg.chosen_rows(f);
     if rng.chance(65) {
         cfg.sel = Some(random_sel(rng, rows, f));
@@ -539,19 +556,20 @@ pub fn random_cfg(rng: &mut Rng, f: &TestFile) -> ScanCfg {
         cfg.preds.push(random_pred(rng, f.n));
     }
     if rng.chance(45) {
-        cfg.offset = Some(match rng.below(5) {
+        cfg.offset = Some(match rng.below(10) {
             0 => 0,
             1 => rows + rng.below(3),
-            2 => rng.below(rows + 1),
-            _ => rng.below(rows / 4 + 2),
+            2 | 3 => rng.below(rows + 1),
+            _ => rng.below(rows / 6 + 2),
         });
     }
     if rng.chance(45) {
-        cfg.limit = Some(match rng.below(5) {
+        cfg.limit = Some(match rng.below(12) {
             0 => 0,
             1 => rows + rng.below(3),
             2 => 1,
-            _ => rng.below(rows / 2 + 2),
+            3 | 4 | 5 => 1 + rng.below(rows / 4 + 2),
+            _ => 1 + rng.below(rows + 1),
         });
     }
     cfg.bs = match rng.below(8) {
@@ -570,7 +588,34 @@ pub fn random_cfg(rng: &mut Rng, f: &TestFile) -> ScanCfg {
         _ => Some(2 + *rng.pick(&[0usize, 1, 3, 32, 1000])),
     };
     cfg.page_index = f.has_offset_index && rng.chance(65);
+    cfg.cache = match rng.below(6) {
+        0 => Some(0),
+        1 => Some(*rng.pick(&[64usize, 400, 3000])),
+        _ => None,
+    };
     cfg
+}
+
+/// metadata as the configuration wants it (with or without the page index)
+pub fn metadata_for(f: &TestFile, cfg: &ScanCfg) -> Arc<ParquetMetaData> {
+    if cfg.page_index { f.meta.clone() } else { f.meta_plain.clone() }
+}
+
+/// column chunk byte ranges requests of the async / push front-ends may fall in
+pub fn allowed_ranges(f: &TestFile, cfg: &ScanCfg) -> Value {
+    let mut vc = cfg.proj.clone();
+    for p in &cfg.preds {
+        vc.extend(p.vcols());
+    }
+    let leaves = leaves_of(&vc);
+    let mut out = vec![];
+    for g in cfg.chosen(f) {
+        for l in &leaves {
+            let (s, e) = f.chunk_range(g, *l);
+            out.push(json!([s, e]));
+        }
+    }
+    Value::Array(out)
 }
 
 pub fn projection_mask(f: &TestFile, vcols: &[usize], style: u8) -> ProjectionMask {
@@ -636,6 +681,9 @@ pub fn apply<T>(mut b: ArrowReaderBuilder<T>, f: &TestFile, cfg: &ScanCfg) -> Ar
     if let Some(p) = cfg.policy {
         b = b.with_row_selection_policy(policy_of(p));
     }
+    if let Some(c) = cfg.cache {
+        b = b.with_max_predicate_cache_size(c);
+    }
     b.with_batch_size(cfg.bs)
 }
 
@@ -683,6 +731,7 @@ pub fn cfg_fields(f: &TestFile, cfg: &ScanCfg, m: &mut serde_json::Map<String, V
     m.insert("policy".into(), json!(cfg.policy.map(|x| x as i64).unwrap_or(-1)));
     m.insert("rgdefault".into(), json!(cfg.rgs.is_none()));
     m.insert("pidx".into(), json!(cfg.page_index));
+    m.insert("cache".into(), json!(cfg.cache.map(|x| x as i64).unwrap_or(-1)));
     m.insert("file".into(), json!(f.describe()));
 }
 
